@@ -199,7 +199,14 @@ FarTail == << Mov64I(0, 1), I(21, 0, 0, 1, 1), ExitI, Add64I(0, 5), JaI(-3) >>
 
 FarCase(H) == [BaseCase EXCEPT !.id = <<"far", H, 0, 0, 0, 0, 0>>, !.fam = "far", !.vm = "nodata",
                                !.prog = FarProg(H, FarTail)]
-FarCases(u) == { FarCase(H) : H \in {0, 1, 2, 3, 30} }
+\* division / modulo by a zero REGISTER at instruction index P (> 16 bits): two hops reach
+\* P - 2, then mov r1,0 ; mov r0,7 ; <div|mod r0, r1> ; exit.  div gives 0, mod leaves 7.
+FarDivProg(P, o) ==
+  << Seg(1, JaI(32767)), Seg(32767, Filler), Seg(1, JaI(P - 2 - 32769)), Seg(P - 2 - 32769, Filler) >>
+  \o Flat(<< Mov64I(1, 0), Mov64I(0, 7), I(o, 0, 1, 0, 0), ExitI >>)
+FarDivCase(P, o) == [BaseCase EXCEPT !.id = <<"fardiv", P, o, 0, 0, 0, 0>>, !.fam = "far", !.vm = "nodata",
+                                      !.prog = FarDivProg(P, o)]
+FarCases(u) == { FarCase(H) : H \in {0, 1, 2, 3, 30} } \cup { FarDivCase(P, o) : P \in {65535, 65536, 65537, 65538}, o \in {63, 60, 159, 156} }
 
 (***************************************************************************)
 (* Family "mem": loads zero-extend, stores truncate, little-endian, every  *)
@@ -479,9 +486,18 @@ LocalVsHelper(k) ==
   [BaseCase EXCEPT !.id = <<"lvh", k, 0, 0, 0, 0, 0>>, !.fam = "calls", !.vm = "nodata", !.helpers = {k},
                    !.prog = Flat(<< CallxI(k), ExitI >> \o [j \in 1..(k-1) |-> Mov64I(0, 7)] \o << Mov64I(0, 42), ExitI >>)]
 
+\* a helper call `call k` at pc i is not a local call: it must not create a function entry at
+\* i+1+k (here pc 3, inside main) that would change main's frame size (16) to the default (48)
+HelperNotAnEntry ==
+  [BaseCase EXCEPT !.id = <<"hne", 0, 0, 0, 0, 0, 0>>, !.fam = "calls", !.vm = "nodata", !.helpers = {2},
+                   !.calc = TRUE, !.fsz = [dflt |-> 48, tab |-> << <<0, 16>>, <<6, 32>> >>],
+                   !.prog = Flat(<< Mov64I(1, 0), Mov64I(2, 0), Mov64I(3, 0), Mov64I(4, 0), Mov64I(5, 0),
+                                    CallI(2), Mov64I(6, 1), Mov64I(7, 2), Mov64R(1, 10), CallxI(1), ExitI,
+                                    Mov64R(0, 1), Sub64R(0, 10), ExitI >>)]
+
 CallsCases(u) ==
   { LocalVsHelper(k) : k \in {1, 2, 6} } \cup
-  WithJitDev( { ChainCase(t[1], t[2], t[3]) : t \in {x \in (0..9) \X {0, 1} \X (1..7) : Keep(x[1] + 3*x[2] + 5*x[3])} }
+  WithJitDev( { HelperNotAnEntry } \cup { ChainCase(t[1], t[2], t[3]) : t \in {x \in (0..9) \X {0, 1} \X (1..7) : Keep(x[1] + 3*x[2] + 5*x[3])} }
               \cup { RecCase(N, ci) : N \in 0..9, ci \in {1, 2, 3} } )
 
 (***************************************************************************)
